@@ -3,7 +3,11 @@
 // as in production) under the recording datastore.  Writes cases_C10.v (for Model/Queue.v) and
 // result.json (Go oracle: the property — durable FIFO, exactly once, rejected = no trace, bound —
 // evaluated directly on what the real code returned).  A share of the cases drives concurrent
-// submitters (not sent to Coq; oracle only).
+// submitters (not sent to Coq; oracle only).  A share of the sequential and of the concurrent cases submits
+// LARGE batches (payload at and around size boundaries: 1.5 MB and its multiples, 1 MiB, 2 MB, 2 MiB; 2..5
+// transactions) into queues whose free slots are few: the model says admission does not depend on any size, so
+// a size-aware implementation (splitting, truncating, refusing) shows as a difference.  Those cases run on the
+// on-disk badger store (the production configuration; the in-memory one refuses values above 1 MiB).
 package c10
 
 import (
@@ -16,6 +20,7 @@ import (
 	"os"
 	"path/filepath"
 	"sort"
+	"strconv"
 	"strings"
 	"sync"
 	"testing"
@@ -57,7 +62,7 @@ type Replay struct {
 	Seed    int64      `json:"seed"`
 	Case    int        `json:"case"`
 	Max     int        `json:"max"`  // maxQueueSize (0 = unlimited; 1000 = NewSequencer's default constructor)
-	Pool    [][]string `json:"pool"` // batches as lists of hex transactions; pool[i] is id i+1
+	Pool    [][]string `json:"pool"` // batches as lists of transactions; pool[i] is id i+1; a transaction is hex, or "#<size>:<byte>" = size bytes of that value
 	History []Item     `json:"history"`
 	Note    string     `json:"note,omitempty"`
 }
@@ -95,6 +100,177 @@ func genPool(r *rand.Rand) [][][]byte {
 		pool = append(pool, b)
 	}
 	return pool
+}
+
+// ---- size-boundary submissions ----------------------------------------------------------------------
+// Limits an implementation could plausibly apply to a batch: the DA blob size of the based sequencer
+// (1_500_000), 1 MiB (badger's value threshold), 2 MB, 2 MiB, 1 MB.
+var sizeLimits = []int{1_500_000, 1_500_000, 1_500_000, 1_500_000, 1 << 20, 2_000_000, 2 << 20, 1_000_000}
+
+const bigPayload = 500_000 // a pool with a batch of at least this payload runs on the on-disk store
+
+func txDesc(size, fill int) string { return fmt.Sprintf("#%d:%d", size, fill) }
+
+// one large batch: total payload = k * limit + delta (delta: -1, 0, +1, a little under / over, well inside the
+// next multiple), cut into 2..5 transactions in one of several ways
+func genBigBatch(r *rand.Rand, tag int) []string {
+	L := sizeLimits[r.Intn(len(sizeLimits))]
+	if r.Intn(8) == 0 {
+		L = 300_000 + r.Intn(2_200_000)
+	}
+	k := 1 + r.Intn(3)
+	for k > 1 && k*L > 5_000_000 {
+		k--
+	}
+	var delta int
+	switch r.Intn(7) {
+	case 0:
+		delta = -1
+	case 1:
+		delta = 0
+	case 2:
+		delta = 1
+	case 3:
+		delta = -(1 + r.Intn(4096))
+	case 4:
+		delta = 1 + r.Intn(4096)
+	default:
+		delta = L/4 + r.Intn(L/2)
+	}
+	total := k*L + delta
+	nt := 2 + r.Intn(4)
+	sizes := make([]int, nt)
+	switch r.Intn(5) {
+	case 0: // equal parts
+		for i := range sizes {
+			sizes[i] = total / nt
+		}
+		sizes[nt-1] += total % nt
+	case 1: // random cuts
+		cuts := []int{0, total}
+		for i := 0; i < nt-1; i++ {
+			cuts = append(cuts, 1+r.Intn(total-1))
+		}
+		sort.Ints(cuts)
+		for i := range sizes {
+			sizes[i] = cuts[i+1] - cuts[i]
+		}
+	case 2: // one huge transaction first, small ones behind
+		rest := 0
+		for i := 1; i < nt; i++ {
+			sizes[i] = 1 + r.Intn(64)
+			rest += sizes[i]
+		}
+		sizes[0] = total - rest
+	case 3: // small ones first, one huge transaction last
+		rest := 0
+		for i := 0; i < nt-1; i++ {
+			sizes[i] = 1 + r.Intn(64)
+			rest += sizes[i]
+		}
+		sizes[nt-1] = total - rest
+	default: // every transaction just over half the limit: any two together exceed it
+		left := total
+		for i := range sizes {
+			sizes[i] = L/2 + 1
+			if i == nt-1 || sizes[i] > left {
+				sizes[i] = left
+			}
+			left -= sizes[i]
+		}
+	}
+	var b []string
+	for i, sz := range sizes {
+		if sz <= 0 {
+			continue
+		}
+		b = append(b, txDesc(sz, tag*16+i))
+	}
+	return b
+}
+
+// pool of a size-boundary case: 1-2 small batches (to fill the queue up to the wanted number of free slots)
+// followed by 1-2 large ones
+func genBigPool(r *rand.Rand) (desc [][]string, nsmall int) {
+	nsmall = 1 + r.Intn(2)
+	for i := 0; i < nsmall; i++ {
+		desc = append(desc, []string{hex.EncodeToString([]byte(fmt.Sprintf("s%d", i)))})
+	}
+	nbig := 1 + r.Intn(2)
+	for i := 0; i < nbig; i++ {
+		desc = append(desc, genBigBatch(r, 1+i))
+	}
+	return desc, nsmall
+}
+
+// history of a size-boundary case: (usually) fill the queue so that 1..3 slots are free, then a large
+// submission - completed, or cut by a crash after 0..5 of its datastore writes -, an aftermath (restart /
+// hand-out / crash inside a hand-out) and a short random tail over the whole pool
+func genBigHistory(r *rand.Rand, npool, nsmall, max int) []Item {
+	var h []Item
+	small := func() int { return 1 + r.Intn(nsmall) }
+	big := func() int { return nsmall + 1 + r.Intn(npool-nsmall) }
+	switch {
+	case max > 0 && r.Intn(4) > 0:
+		free := 1 + r.Intn(3)
+		for i := 0; i < max-free; i++ {
+			h = append(h, Item{T: "submit", B: small()})
+		}
+	default:
+		for i := r.Intn(3); i > 0; i-- {
+			h = append(h, Item{T: "submit", B: small()})
+		}
+	}
+	bigOp := func() Item {
+		if r.Intn(10) < 3 {
+			return Item{T: "crash", Op: "submit", B: big(), N: r.Intn(6)}
+		}
+		return Item{T: "submit", B: big()}
+	}
+	h = append(h, bigOp())
+	switch r.Intn(5) {
+	case 0:
+		h = append(h, Item{T: "restart"})
+	case 1:
+		h = append(h, Item{T: "next"}, Item{T: "restart"})
+	case 2:
+		h = append(h, Item{T: "crash", Op: "next", N: r.Intn(3)})
+	case 3:
+		h = append(h, bigOp())
+	}
+	for i := r.Intn(7); i > 0; i-- {
+		x := r.Intn(100)
+		switch {
+		case x < 30:
+			h = append(h, bigOp())
+		case x < 45:
+			h = append(h, Item{T: "submit", B: small(), Bad: r.Intn(12) == 0})
+		case x < 75:
+			h = append(h, Item{T: "next"})
+		case x < 87:
+			h = append(h, Item{T: "restart"})
+		default:
+			h = append(h, Item{T: "crash", Op: "next", N: r.Intn(3)})
+		}
+	}
+	return h
+}
+
+func payloadOf(b [][]byte) int {
+	n := 0
+	for _, tx := range b {
+		n += len(tx)
+	}
+	return n
+}
+
+func needsDisk(pool [][][]byte) bool {
+	for _, b := range pool {
+		if payloadOf(b) >= bigPayload {
+			return true
+		}
+	}
+	return false
 }
 
 func genHistory(r *rand.Rand, npool, maxLen int) []Item {
@@ -165,6 +341,10 @@ type out struct {
 	kind  string // ok invalid full empty batch none other
 	id    int
 	inner *out // crash: what the dying process computed (never seen by a caller; used by the oracle only)
+	// submit: the datastore image after the call differs from the image before it (oracle only)
+	changed bool
+	// next, when the batch handed out is no pool batch: it is a proper contiguous part of pool batch partOf (oracle only)
+	partOf, partLen int
 }
 
 func (o out) coq() string {
@@ -192,7 +372,11 @@ type runner struct {
 	cds  *crashds.DS
 	seq  *single.Sequencer
 	ctx  context.Context
+	dir  string // on-disk store: its directory (removed on close)
 }
+
+// where on-disk stores are created (TestVerif points it into VERIF_OUT)
+var scratchDir = ""
 
 var logger = func() logging.EventLogger {
 	_ = logging.SetLogLevel("c10", "FATAL")
@@ -204,7 +388,22 @@ var logger = func() logging.EventLogger {
 func newRunner(pool [][][]byte, max int) (*runner, error) { return newRunnerSeeded(pool, max, nil) }
 
 func newRunnerSeeded(pool [][][]byte, max int, legacy []int) (*runner, error) {
-	kv, err := store.NewDefaultInMemoryKVStore()
+	return newRunnerOn(pool, max, legacy, needsDisk(pool))
+}
+
+// disk: the production store (badger on disk, values above 1 MiB go to its value log); otherwise badger in memory
+func newRunnerOn(pool [][][]byte, max int, legacy []int, disk bool) (*runner, error) {
+	var kv ds.Batching
+	var err error
+	dir := ""
+	if disk {
+		if dir, err = os.MkdirTemp(scratchDir, "c10-ds-"); err != nil {
+			return nil, err
+		}
+		kv, err = store.NewDefaultKVStore(dir, "data", "c10")
+	} else {
+		kv, err = store.NewDefaultInMemoryKVStore()
+	}
 	if err != nil {
 		return nil, err
 	}
@@ -218,7 +417,7 @@ func newRunnerSeeded(pool [][][]byte, max int, legacy []int) (*runner, error) {
 			return nil, err
 		}
 	}
-	r := &runner{pool: pool, max: max, kv: kv, cds: crashds.Wrap(kv, nil), ctx: context.Background()}
+	r := &runner{pool: pool, max: max, kv: kv, cds: crashds.Wrap(kv, nil), ctx: context.Background(), dir: dir}
 	if err := r.boot(); err != nil {
 		return nil, err
 	}
@@ -241,7 +440,12 @@ func (r *runner) boot() error {
 	return nil
 }
 
-func (r *runner) close() { _ = r.kv.Close() }
+func (r *runner) close() {
+	_ = r.kv.Close()
+	if r.dir != "" {
+		_ = os.RemoveAll(r.dir)
+	}
+}
 
 func cloneBatch(b [][]byte) [][]byte {
 	c := make([][]byte, len(b))
@@ -311,13 +515,49 @@ func (r *runner) next(it Item) out {
 	case len(resp.Batch.Transactions) == 0:
 		return out{kind: "empty"}
 	}
-	return out{kind: "batch", id: r.idOf(resp.Batch.Transactions)}
+	o := out{kind: "batch", id: r.idOf(resp.Batch.Transactions)}
+	if o.id == 999999 {
+		o.partOf, o.partLen = r.partOf(resp.Batch.Transactions), len(resp.Batch.Transactions)
+	}
+	return o
+}
+
+// the pool batch of which txs is a proper contiguous run of transactions (0 = none)
+func (r *runner) partOf(txs [][]byte) int {
+	for i, p := range r.pool {
+		for a := 0; a+len(txs) <= len(p) && len(txs) < len(p); a++ {
+			if sameBatch(p[a:a+len(txs)], txs) {
+				return i + 1
+			}
+		}
+	}
+	return 0
+}
+
+// did the datastore writes recorded since log position 'before' change the image?
+func (r *runner) imageChangedSince(before int) bool {
+	if r.cds.Len() == before {
+		return false
+	}
+	a, b := r.cds.ImageAfter(before), r.cds.ImageAfter(r.cds.Len())
+	if len(a) != len(b) {
+		return true
+	}
+	for k, v := range a {
+		if w, ok := b[k]; !ok || !bytes.Equal(v, w) {
+			return true
+		}
+	}
+	return false
 }
 
 func (r *runner) exec(it Item) out {
 	switch it.T {
 	case "submit":
-		return r.submit(it)
+		before := r.cds.Len()
+		o := r.submit(it)
+		o.changed = r.imageChangedSince(before)
+		return o
 	case "next":
 		return r.next(it)
 	case "restart":
@@ -327,10 +567,12 @@ func (r *runner) exec(it Item) out {
 		return out{kind: "none"}
 	case "crash":
 		// the process dies inside the operation after it.N of its datastore writes became durable
-		r.cds.FailAfter = r.cds.Len() + it.N
+		before := r.cds.Len()
+		r.cds.FailAfter = before + it.N
 		var in out
 		if it.Op == "submit" {
 			in = r.submit(Item{T: "submit", B: it.B})
+			in.changed = r.imageChangedSince(before)
 		} else {
 			in = r.next(Item{T: "next"})
 		}
@@ -357,6 +599,18 @@ type oracle struct {
 	unordRst bool // a restart / crash happened while the pending batches' real hashes were not strictly increasing
 	accepted int
 	guardOK  bool
+	hashes   map[int][]byte
+}
+
+func (o *oracle) hashOf(id int) []byte {
+	if h, ok := o.hashes[id]; ok {
+		return h
+	}
+	if o.hashes == nil {
+		o.hashes = map[int][]byte{}
+	}
+	o.hashes[id] = realHash(o.pool[id-1])
+	return o.hashes[id]
 }
 
 func realHash(b [][]byte) []byte {
@@ -378,7 +632,7 @@ func (o *oracle) isFull() bool { return o.max > 0 && len(o.pending) >= o.max }
 
 func (o *oracle) noteRestart() {
 	for i := 0; i+1 < len(o.pending); i++ {
-		if bytes.Compare(realHash(o.pool[o.pending[i]-1]), realHash(o.pool[o.pending[i+1]-1])) >= 0 {
+		if bytes.Compare(o.hashOf(o.pending[i]), o.hashOf(o.pending[i+1])) >= 0 {
 			o.unordRst = true
 		}
 	}
@@ -401,6 +655,10 @@ func (o *oracle) observe(idx int, it Item, got out) {
 	switch it.T {
 	case "submit":
 		switch {
+		case (got.kind == "full" || got.kind == "invalid") && got.changed:
+			// "a submission rejected because the queue is full or the chain id is foreign leaves no trace"
+			o.fail("rejected-submission-left-trace", fmt.Sprintf("item %d: submission of batch %d (%s) was rejected (%s) with %d pending, bound %d, yet the datastore records changed during the call",
+				idx, it.B, o.shape(it.B), got.kind, len(o.pending), o.max))
 		case it.Bad:
 			if got.kind != "invalid" {
 				o.fail("foreign-chain-id-not-rejected", fmt.Sprintf("item %d: submit with a foreign chain id returned %s", idx, got.kind))
@@ -408,6 +666,8 @@ func (o *oracle) observe(idx int, it Item, got out) {
 		case it.B <= 0:
 			if got.kind != "ok" {
 				o.fail("empty-submission-not-ok", fmt.Sprintf("item %d: empty submission returned %s", idx, got.kind))
+			} else if got.changed {
+				o.fail("empty-submission-left-trace", fmt.Sprintf("item %d: an empty submission changed the datastore records", idx))
 			}
 		case got.kind == "full":
 			if !o.isFull() {
@@ -435,6 +695,10 @@ func (o *oracle) observe(idx int, it Item, got out) {
 			switch {
 			case len(o.pending) > 0 && o.pending[0] == got.id:
 				o.pending = o.pending[1:]
+			case got.partOf > 0:
+				// an accepted submission is handed out as the one batch it was, a rejected one not at all
+				o.fail("submission-handed-out-in-parts", fmt.Sprintf("item %d: handed out %d of the %d transactions of batch %d (%s) as a batch of their own (pending %v)",
+					idx, got.partLen, len(o.pool[got.partOf-1]), got.partOf, o.shape(got.partOf), o.pending))
 			case contains(o.pending, got.id):
 				o.fail("next-out-of-order", fmt.Sprintf("item %d: handed out batch %d, but the oldest pending is %d (pending %v)", idx, got.id, o.pending[0], o.pending))
 			default:
@@ -449,6 +713,14 @@ func (o *oracle) observe(idx int, it Item, got out) {
 		}
 		o.noteRestart()
 	}
+}
+
+// "3 transactions, 2100000 bytes"
+func (o *oracle) shape(id int) string {
+	if id < 1 || id > len(o.pool) {
+		return "no transactions"
+	}
+	return fmt.Sprintf("%d transactions, %d bytes", len(o.pool[id-1]), payloadOf(o.pool[id-1]))
 }
 
 func contains(l []int, x int) bool {
@@ -673,6 +945,19 @@ func poolFromHex(p [][]string) [][][]byte {
 	for _, b := range p {
 		l := [][]byte{}
 		for _, tx := range b {
+			if strings.HasPrefix(tx, "#") { // "#<size>:<byte>"
+				f := strings.SplitN(tx[1:], ":", 2)
+				sz, err1 := strconv.Atoi(f[0])
+				fill, err2 := 0, error(nil)
+				if len(f) == 2 {
+					fill, err2 = strconv.Atoi(f[1])
+				}
+				if err1 != nil || err2 != nil || sz < 0 || sz > 16<<20 {
+					panic("bad transaction descriptor " + tx)
+				}
+				l = append(l, bytes.Repeat([]byte{byte(fill)}, sz))
+				continue
+			}
 			x, err := hex.DecodeString(tx)
 			if err != nil {
 				panic(err)
@@ -706,20 +991,61 @@ func runConcurrent(seed int64, c int) (sig, what string, stats map[string]int) {
 	g := 2 + r.Intn(4)
 	per := 5 + r.Intn(30)
 	max := []int{0, 0, 7, 50}[r.Intn(4)]
-	run, err := newRunner(nil, max)
+	// every fourth concurrent case: LARGE submissions (2-3 transactions, payload around 1.5 MB .. 2.4 MB) into a
+	// small bound - each must be admitted or rejected as a whole and handed out as the one batch it was
+	large := r.Intn(4) == 0
+	txSize := 0
+	ntx := 1
+	if large {
+		g = 2 + r.Intn(2)
+		per = 3 + r.Intn(4)
+		max = []int{0, 2, 3, 3}[r.Intn(4)]
+		ntx = 2 + r.Intn(2)
+		txSize = []int{750_001, 800_000, 600_000, 1_100_000}[r.Intn(4)]
+		stats["conc:large-runs"] = 1
+	}
+	run, err := newRunnerOn(nil, max, nil, large)
 	if err != nil {
 		return "harness-error", err.Error(), stats
 	}
 	defer run.close()
+	mkBatch := func(gi, i int) [][]byte {
+		var b [][]byte
+		for k := 0; k < ntx; k++ {
+			tag := []byte(fmt.Sprintf("g%d-i%d", gi, i))
+			if large {
+				tag = append([]byte(fmt.Sprintf("g%d-i%d-k%d-", gi, i, k)), bytes.Repeat([]byte{byte('a' + k)}, txSize)...)
+			}
+			b = append(b, tag)
+		}
+		return b
+	}
 	var mu sync.Mutex
 	acceptedBy := make([][]int, g)
 	var delivered [][2]int
+	split := false // a batch handed out holds some, not all, transactions of one submission
 	parse := func(txs [][]byte) (int, int, bool) {
 		var a, b int
-		if len(txs) != 1 {
+		if len(txs) == 0 || len(txs) > ntx {
 			return 0, 0, false
 		}
-		if _, err := fmt.Sscanf(string(txs[0]), "g%d-i%d", &a, &b); err != nil {
+		head := txs[0]
+		if len(head) > 64 {
+			head = head[:64]
+		}
+		if _, err := fmt.Sscanf(string(head), "g%d-i%d", &a, &b); err != nil {
+			return 0, 0, false
+		}
+		if a < 0 || b < 0 {
+			return 0, 0, false
+		}
+		if !sameBatch(txs, mkBatch(a, b)) {
+			want := mkBatch(a, b)
+			for k := 0; k+len(txs) <= len(want); k++ {
+				if len(txs) < len(want) && sameBatch(want[k:k+len(txs)], txs) {
+					split = true
+				}
+			}
 			return 0, 0, false
 		}
 		return a, b, true
@@ -739,7 +1065,7 @@ func runConcurrent(seed int64, c int) (sig, what string, stats map[string]int) {
 		go func(gi int) {
 			defer wg.Done()
 			for i := 0; i < per; i++ {
-				req := coresequencer.SubmitBatchTxsRequest{Id: chainID, Batch: &coresequencer.Batch{Transactions: [][]byte{[]byte(fmt.Sprintf("g%d-i%d", gi, i))}}}
+				req := coresequencer.SubmitBatchTxsRequest{Id: chainID, Batch: &coresequencer.Batch{Transactions: mkBatch(gi, i)}}
 				_, err := run.seq.SubmitBatchTxs(run.ctx, req)
 				if err == nil {
 					mu.Lock()
@@ -763,6 +1089,10 @@ func runConcurrent(seed int64, c int) (sig, what string, stats map[string]int) {
 			return false
 		}
 		a, b, ok := parse(resp.Batch.Transactions)
+		if !ok && split {
+			setFail("concurrent-submission-handed-out-in-parts", fmt.Sprintf("handed out %d of the %d transactions of one submission as a batch of their own", len(resp.Batch.Transactions), ntx))
+			return false
+		}
 		if !ok {
 			setFail("concurrent-phantom", "handed out a batch nobody submitted")
 			return false
@@ -823,6 +1153,60 @@ func runConcurrent(seed int64, c int) (sig, what string, stats map[string]int) {
 	return "", "", stats
 }
 
+// what the size-boundary cases reached (measured on the real run)
+func sizeStats(res *vgen.Result, pool [][][]byte, max int, h []Item, cr *caseResult) {
+	pending := 0 // what a FIFO of whole submissions holds (reference count from the results)
+	for i, it := range withClosing(h) {
+		if i >= len(cr.outs) {
+			break
+		}
+		o := cr.outs[i]
+		isSubmit := it.T == "submit" || (it.T == "crash" && it.Op == "submit")
+		if isSubmit && it.B > 0 && !it.Bad {
+			pl := payloadOf(pool[it.B-1])
+			if pl >= bigPayload {
+				res.Count("size:large-submission")
+				if pl > 1_500_000 {
+					res.Count("size:large-submission-over-1.5MB")
+					parts := (pl + 1_499_999) / 1_500_000
+					if free := max - pending; max > 0 && free >= 1 && free < parts {
+						res.Count("size:over-1.5MB-with-free-slots-fewer-than-1.5MB-parts")
+					}
+				}
+				if it.T == "crash" {
+					res.Count(fmt.Sprintf("size:crash-in-large-submission:%d", it.N))
+				}
+			}
+		}
+		eff := o
+		if it.T == "crash" {
+			if o.inner == nil {
+				continue
+			}
+			eff = *o.inner
+			if it.N == 0 {
+				continue
+			}
+		}
+		switch {
+		case isSubmit && eff.kind == "ok" && it.B > 0 && !it.Bad:
+			pending++
+			if payloadOf(pool[it.B-1]) >= bigPayload {
+				res.Count("size:large-submission-accepted")
+			}
+		case isSubmit && eff.kind == "full":
+			if it.B > 0 && payloadOf(pool[it.B-1]) >= bigPayload {
+				res.Count("size:large-submission-rejected-full")
+			}
+		case !isSubmit && eff.kind == "batch":
+			pending--
+			if eff.id >= 1 && eff.id <= len(pool) && payloadOf(pool[eff.id-1]) >= bigPayload {
+				res.Count("size:large-batch-handed-out")
+			}
+		}
+	}
+}
+
 // ---- driver ----------------------------------------------------------------------------------------
 
 func TestVerif(t *testing.T) {
@@ -853,10 +1237,13 @@ func TestVerif(t *testing.T) {
 		}
 		for c := 0; c < e.N; c++ {
 			kind := "seq"
-			if c%10 == 9 {
+			switch c % 10 {
+			case 9:
 				kind = "conc"
-			} else if c%10 == 4 {
+			case 4:
 				kind = "legacy"
+			case 2, 7:
+				kind = "size" // sequential, with size-boundary submissions (goes to Coq like "seq")
 			}
 			jobs = append(jobs, job{rp: Replay{Kind: kind, Seed: e.Seed, Case: c}, gen: true})
 		}
@@ -866,6 +1253,10 @@ func TestVerif(t *testing.T) {
 		maxLen = 60
 	}
 	maxes := []int{0, 1, 2, 3, 3, 5, 8, 1000}
+	sizeMaxes := []int{0, 1, 2, 2, 2, 3, 3, 4}
+	if e.Out != "" {
+		scratchDir = e.Out
+	}
 	var cases, defsAll []string
 	distinct := map[string]bool{}
 	shrunk := map[string]int{}
@@ -885,7 +1276,14 @@ func TestVerif(t *testing.T) {
 			continue
 		}
 		var pool [][][]byte
-		if j.gen {
+		if j.gen && rp.Kind == "size" {
+			r := caseRng(rp.Seed, rp.Case)
+			var nsmall int
+			rp.Pool, nsmall = genBigPool(r)
+			pool = poolFromHex(rp.Pool)
+			rp.Max = sizeMaxes[r.Intn(len(sizeMaxes))]
+			rp.History = genBigHistory(r, len(pool), nsmall, rp.Max)
+		} else if j.gen {
 			r := caseRng(rp.Seed, rp.Case)
 			pool = genPool(r)
 			rp.Max = maxes[r.Intn(len(maxes))]
@@ -915,7 +1313,15 @@ func TestVerif(t *testing.T) {
 			t.Fatalf("harness error: %v", cr.err)
 		}
 		res.Evaluations++
-		res.Count("case:" + map[bool]string{true: "sequential-on-legacy-store", false: "sequential"}[len(rp.Legacy) > 0])
+		switch {
+		case len(rp.Legacy) > 0:
+			res.Count("case:sequential-on-legacy-store")
+		case needsDisk(pool):
+			res.Count("case:sequential-size-boundary")
+			sizeStats(res, pool, rp.Max, rp.History, cr)
+		default:
+			res.Count("case:sequential")
+		}
 		res.Count(fmt.Sprintf("max:%d", rp.Max))
 		for _, it := range rp.History {
 			k := "item:" + it.T
@@ -947,7 +1353,11 @@ func TestVerif(t *testing.T) {
 		full := withClosing(rp.History)
 		hc := histCoq(full)
 		if len(rp.History) >= 3 && cr.orc != nil && cr.orc.accepted > 0 {
-			distinct[fmt.Sprintf("%d|%v|%s", rp.Max, rp.Legacy, hc)] = true
+			dk := fmt.Sprintf("%d|%v|%s", rp.Max, rp.Legacy, hc)
+			if needsDisk(pool) {
+				dk += fmt.Sprint(rp.Pool) // size-boundary cases: the transactions' sizes are part of the input
+			}
+			distinct[dk] = true
 		}
 		if cr.sig != "" {
 			sig := cr.sig
@@ -990,7 +1400,7 @@ func TestVerif(t *testing.T) {
 		ji++
 	}
 	res.Distinct = len(distinct)
-	res.Rule = "sequential cases: pool of 2-5 batches (incl. one-empty-transaction, [ab] vs [a,b] vs [b,a]) submitted as fresh copies so equal contents recur; bound from {0,1,2,3,5,8,1000 (NewSequencer)}; histories of 1..maxLen items over submit (8% foreign chain id, 14% nil/empty), next, restart (0-24% per case), crash inside submit/next with 0..2 writes surviving; every history is closed by next x (submits+1), restart, next; every 10th case = 2-5 concurrent submitters + one concurrent consumer (oracle only); every 10th case runs on a store pre-seeded with 1-2 records under the pre-repair bare-hash keys (oracle only: they must be handed out first, exactly once, and be deleted); non-trivial = at least 3 items and one accepted batch; distinct = distinct (bound, keys, history) terms"
+	res.Rule = "sequential cases: pool of 2-5 batches (incl. one-empty-transaction, [ab] vs [a,b] vs [b,a]) submitted as fresh copies so equal contents recur; bound from {0,1,2,3,5,8,1000 (NewSequencer)}; histories of 1..maxLen items over submit (8% foreign chain id, 14% nil/empty), next, restart (0-24% per case), crash inside submit/next with 0..2 writes surviving; every history is closed by next x (submits+1), restart, next; every 10th case = 2-5 concurrent submitters + one concurrent consumer (oracle only; every fourth of them with LARGE submissions of 2-3 transactions, 1.2-3.3 MB, bound from {0,2,3}, on the on-disk store); two cases in ten are size-boundary cases on the on-disk badger store: pool = 1-2 one-transaction batches + 1-2 LARGE batches (payload k*L+d, L from {1_500_000, 1 MiB, 2_000_000, 2 MiB, 1_000_000, random}, k 1..3, d from {-1, 0, +1, a few KB under / over, a quarter to three quarters of L over}; 2..5 transactions: equal parts, random cuts, one huge first / last, each just over L/2), bound from {0,1,2,3,4}, history = fill the queue so that 1..3 slots are free (or 0..2 small submissions), a large submission (30%: cut by a crash after 0..5 of its datastore writes), an aftermath (restart / next+restart / crash inside next / another large submission) and 0..6 random items; a rejected submission must leave the datastore image unchanged (oracle), a batch handed out must be a whole submission (oracle); every 10th case runs on a store pre-seeded with 1-2 records under the pre-repair bare-hash keys (oracle only: they must be handed out first, exactly once, and be deleted); non-trivial = at least 3 items and one accepted batch; distinct = distinct (bound, keys, history) terms"
 	res.Cases = len(cases)
 	header := "From Coq Require Import NArith List Bool.\nFrom Verif Require Import Model.Queue Check.QueueCheck."
 	path := filepath.Join(e.Out, "cases_C10.v")
